@@ -370,15 +370,17 @@ async fn gen_history(rng: &mut Rng, o: &GenOpts) -> Hist {
             match restart_real(&params, 1, disk).await {
                 Ok(n2) => {
                     let before = h.marks.last().and_then(|m| m.snap.as_ref()).map(|s| s.tip_hash);
-                    node = n2;
-                    record(&mut h, &node, "restart".to_string(), "Restart".to_string()).await;
-                    let after = h.marks.last().and_then(|m| m.snap.as_ref()).map(|s| s.tip_hash);
+                    let after = safe_snapshot(&n2).ok().map(|s| s.tip_hash);
                     if before != after {
-                        // the restarted node is on another block (judged at the clean crash point
-                        // at the end of the previous step); the history ends here
-                        h.notes.push("history ends at a clean restart that changed the tip".to_string());
+                        // the restarted node is on another block: that is judged at the clean crash
+                        // point at the end of the previous step; the history ends before this restart
+                        let keep = h.marks.last().map(|m| m.journal_len).unwrap_or(0);
+                        n2.disk.lock().unwrap().journal.truncate(keep);
+                        node = n2;
                         break;
                     }
+                    node = n2;
+                    record(&mut h, &node, "restart".to_string(), "Restart".to_string()).await;
                 }
                 Err(m) => {
                     h.notes.push(format!("clean restart inside the history panicked: {}", m));
